@@ -4,11 +4,15 @@
 
 package io
 
+//@ global invariant ErrLimitExceeded != nil
+
 //@ func (*LimitedWriter).Write
 //@ props C17
 //@ requires l != nil && l.W != nil
 //@ at call (Writer).Write: assert[C17.cap] l.N > 0 && len(arg0) <= l.N
 //@ ensures[C17.cap] old(l.N) >= 0 ==> 0 <= l.N && l.N <= old(l.N) && old(l.N) - l.N <= len(p)
+//@ ensures[C17.accounting] old(l.N) > 0 ==> l.N == old(l.N) - result
+//@ ensures[C17.accounting] old(l.N) <= 0 ==> result == 0 && l.N == old(l.N) && result1 != nil
 //@ modifies l.N
 
 //@ func LimitWriter
